@@ -45,7 +45,9 @@ class CaseResult:
     def side_ok(self, clause, ok, detail=""):
         self.side.append(dict(clause=clause, ok=bool(ok), detail=str(detail)[:300]))
 
-    def candidate(self, clause, domain, inputs, note="", exact=False):
+    def candidate(self, clause, domain, inputs, note="", exact=False, cap=3):
+        if sum(1 for c in self.candidates if c["clause"] == clause) >= cap:
+            return
         self.candidates.append(dict(clause=clause, domain=domain, inputs=inputs, note=note, exact=exact))
 
     def to_dict(self):
@@ -192,6 +194,16 @@ def main(pid, modname, argv=None):
     replays_attempted = replays_confirmed = 0
     validated = 0
     ncand = 0
+    from concurrent.futures import ThreadPoolExecutor
+
+    jobs_ = []
+    for r in results:
+        for cand in r["candidates"]:
+            jobs_.append((cand, r["case"]))
+    with ThreadPoolExecutor(max_workers=int(os.environ.get("VERIF_JOBS", "12"))) as ex:
+        futs = [ex.submit(replay_candidate, pid, modname, cand, case, i + 1) for i, (cand, case) in enumerate(jobs_)]
+        replayed = [f.result() for f in futs]
+    replay_iter = iter(replayed)
     for r in results:
         if r.get("error"):
             errors.append((r["case"], r["error"]))
@@ -216,7 +228,7 @@ def main(pid, modname, argv=None):
         for cand in r["candidates"]:
             ncand += 1
             replays_attempted += 1
-            path, rc, outp = replay_candidate(pid, modname, cand, r["case"], ncand)
+            path, rc, outp = next(replay_iter)
             if rc == 1:
                 replays_confirmed += 1
                 keys = [line.split(":", 1)[1].strip() for line in outp.splitlines() if line.startswith("FINDING-KEY:")]
